@@ -91,7 +91,26 @@ def run_real(src, hist):
     import pyqasm
     mods = [pyqasm.loads(src)]
     outs = []
-    for op in hist:
+    run_real.frames = []
+
+    def texts():
+        out = []
+        for mm in mods:
+            try:
+                out.append(None if mm is None else pyqasm.dumps(mm))
+            except Exception as e:
+                out.append("<%s>" % type(e).__name__)
+        return out
+    before = texts()
+    for k, op in enumerate(hist):
+        if k:
+            # frame: a call on module i leaves the printed program of every OTHER module exactly as it was
+            after = texts()
+            pi = hist[k - 1][0]
+            for j, (a, b) in enumerate(zip(before, after)):
+                if j != pi and a != b and len(run_real.frames) < 3:
+                    run_real.frames.append({"after_call": k - 1, "call": list(hist[k - 1]), "changed_module": j, "before": a, "after": b})
+            before = after
         i, name = op[0], op[1]
         if i >= len(mods):
             outs.append(("XSkip", "no module"))
@@ -155,7 +174,7 @@ def _worker(args):
         outs = run_real(src, hist)
     except Exception as e:   # harness problem, e.g. module index None
         return {"prog": prog, "q2": q2, "outs": None, "error": "%s: %s" % (type(e).__name__, e)}
-    return {"prog": prog, "q2": q2, "outs": outs}
+    return {"prog": prog, "q2": q2, "outs": outs, "frames": list(getattr(run_real, "frames", []))}
 
 
 HEADER = ("From Coq Require Import ZArith List String PrimFloat.\n"
